@@ -517,6 +517,9 @@ def trunc_int(a):
     if a.kind == "int":
         return a
     t = a.t
+    s_ = _int_valued(t, 3)
+    if s_ is not None:
+        return mk(s_, "int")
     return mk(z3.If(t >= 0, z3.ToInt(t), -z3.ToInt(-t)), "int")
 
 
@@ -524,6 +527,10 @@ def ceil_int(a):
     a = as_arith(a)
     if isinstance(a, int):
         return a
+    if isinstance(a, Sym) and a.kind == "real":
+        s_ = _int_valued(a.t, 3)
+        if s_ is not None:
+            return mk(s_, "int")
     if isinstance(a, Fraction):
         return -((-a.numerator) // a.denominator)
     if a.kind == "int":
@@ -539,6 +546,9 @@ def round_half_even(a):
         return round(a)
     if a.kind == "int":
         return a
+    s_ = _int_valued(a.t, 3)
+    if s_ is not None:
+        return mk(s_, "int")
     f = z3.ToInt(a.t + z3.RealVal("1/2"))
     tie = z3.And(z3.ToReal(f) == a.t + z3.RealVal("1/2"), f % 2 == 1)
     return mk(z3.If(tie, f - 1, f), "int")
